@@ -38,7 +38,7 @@ def main():
     if args and args[0] == "-j":
         n = int(args[1]); args = args[2:]
     ids = args or sorted(d for d in os.listdir(os.path.join(ROOT, kind)) if os.path.isdir(os.path.join(ROOT, kind, d)))
-    good, bad = ("CAUGHT", "MISSED") if kind == "seeded" else ("ALARM", "QUIET")
+    good, bad = ("ALARM", "QUIET") if kind == "harmless" else ("CAUGHT", "MISSED")
     os.makedirs(PAR, exist_ok=True)
     n = min(n, len(ids))
     with ThreadPoolExecutor(n) as ex:
